@@ -90,6 +90,65 @@ Theorem C08_ownership_facts : forall f, In f own_facts ->
 Proof. exact own_discipline. Qed.
 Print Assumptions C08_ownership_facts.
 
+(* ---- state shared by a whole logger family (not pooled: reached through a copied pointer) ---- *)
+
+(* clone() copies the pointer to the EncoderConfig, so a logger's long-lived encoder, the per-call clone
+   EncodeEntry works on and every encoder derived through With / Named / Clone look at ONE configuration
+   (EncodeLevel, EncodeTime, EncodeDuration, EncodeCaller, EncodeName, NewReflectedEncoder, LineEnding,
+   ConsoleSeparator, the keys), and EncodeEntry / Clone / writeContext run on the long-lived encoder
+   itself.  Regenerated from the source on every run: no method of jsonEncoder / consoleEncoder (nor
+   putJSONEncoder, addFields) assigns through that pointer or hands it on, and the methods that run on
+   the long-lived encoder neither assign to their receiver, nor call a method that mutates it, nor hand
+   it on *)
+Theorem C08_shared_state_readonly : forall f, In f shared_facts -> sf_cfg_writes f = [] /\ sf_recv_writes f = [].
+Proof. exact shared_no_writes. Qed.
+Print Assumptions C08_shared_state_readonly.
+
+(* ... where the methods that run on the long-lived encoder are exactly these, and the fallback paths
+   (EncodeEntry for a level / name / caller callback that appends nothing, AppendTime, AppendDuration)
+   are among the listed functions *)
+Theorem C08_shared_entry_points :
+  map sf_fn (filter sf_entry shared_facts) =
+  ["consoleEncoder.Clone"; "consoleEncoder.EncodeEntry"; "consoleEncoder.addSeparatorIfNecessary";
+   "consoleEncoder.writeContext"; "jsonEncoder.Clone"; "jsonEncoder.EncodeEntry"; "jsonEncoder.clone"]%string /\
+  forallb (fun n => existsb (String.eqb n) (map sf_fn shared_facts))
+          ["jsonEncoder.EncodeEntry"; "jsonEncoder.AppendTime"; "jsonEncoder.AppendDuration"; "jsonEncoder.AddReflected";
+           "jsonEncoder.AppendReflected"; "putJSONEncoder"; "addFields"]%string = true.
+Proof. exact (conj shared_entry_points shared_fallback_paths_listed). Qed.
+Print Assumptions C08_shared_entry_points.
+
+(* soundness of that check, for any facts and any semantics of the listed functions that assigns to
+   family-wide state only where its facts say the source does: after any history of calls by any
+   members of the family the shared state is what the constructor left, and the output of a call is
+   the same after any two histories *)
+Theorem C08_shared_sound : forall (V I O : Type) facts, shared_readonly facts = true ->
+  forall (h1 h2 : list (path V I O * I)),
+  Forall (fun pi => conforms facts (fst pi)) h1 -> Forall (fun pi => conforms facts (fst pi)) h2 ->
+  forall s, frun h1 s = s /\ forall p i, fobserve h1 s p i = fobserve h2 s p i.
+Proof. exact shared_sound_both. Qed.
+Print Assumptions C08_shared_sound.
+
+(* ... instantiated with the regenerated facts: the bytes of a call do not depend on what the logger,
+   its With / Named children, its siblings or clones of its encoder encoded before *)
+Theorem C08_family_history_independent : forall (V I O : Type) (h1 h2 : list (path V I O * I)),
+  Forall (fun pi => conforms shared_facts (fst pi)) h1 ->
+  Forall (fun pi => conforms shared_facts (fst pi)) h2 ->
+  forall s p i, fobserve h1 s p i = fobserve h2 s p i.
+Proof. exact family_history_independent. Qed.
+Print Assumptions C08_family_history_independent.
+
+(* ... and the check is not vacuous: a path that assigns one location of the family-wide state a value
+   it does not hold (EncodeEntry's fallback storing LowercaseLevelEncoder in the shared EncodeLevel)
+   and whose output reads it is rejected by the check and gives different outputs for the identical
+   call before and after itself *)
+Theorem C08_shared_write_leaks : forall (V I : Type) (f : string) (v : V) (s : fstore V) (i : I), s f <> v ->
+  let w := {| p_name := "w"%string; p_out := fun st _ => st f; p_writes := fun _ _ => [(f, v)] |} in
+  conforms [{| sf_fn := "w"%string; sf_entry := true; sf_cfg_writes := [f]; sf_recv_writes := [] |}] w /\
+  shared_readonly [{| sf_fn := "w"%string; sf_entry := true; sf_cfg_writes := [f]; sf_recv_writes := [] |}] = false /\
+  fobserve [(w, i)] s w i <> fobserve [] s w i.
+Proof. exact (@shared_write_leaks). Qed.
+Print Assumptions C08_shared_write_leaks.
+
 (* ---- non-interference ---- *)
 
 (* rely/guarantee form: every operation (Core.Write with the JSON or console encoder, With,
